@@ -80,3 +80,28 @@ func comparatorLit(info *types.Info, fi *FuncInfo, e ast.Expr) *ast.FuncLit {
 	lit, _ := ast.Unparen(defs[0]).(*ast.FuncLit)
 	return lit
 }
+
+// callbackOf resolves a function-valued argument to the code it runs: a function literal, a local bound once to
+// one, or a named function / method value of the module. It returns the body, the type information it must be read
+// with and the parameter list.
+func callbackOf(w *World, fi *FuncInfo, e ast.Expr) (body *ast.BlockStmt, info *types.Info, params *ast.FieldList) {
+	if lit := comparatorLit(fi.Pkg.TypesInfo, fi, e); lit != nil {
+		return lit.Body, fi.Pkg.TypesInfo, lit.Type.Params
+	}
+	var id *ast.Ident
+	switch v := ast.Unparen(e).(type) {
+	case *ast.Ident:
+		id = v
+	case *ast.SelectorExpr:
+		id = v.Sel
+	}
+	if id == nil {
+		return nil, nil, nil
+	}
+	if fn, ok := fi.Pkg.TypesInfo.Uses[id].(*types.Func); ok {
+		if cf := w.Funcs[fn]; cf != nil && cf.Decl.Body != nil {
+			return cf.Decl.Body, cf.Pkg.TypesInfo, cf.Decl.Type.Params
+		}
+	}
+	return nil, nil, nil
+}
